@@ -100,7 +100,7 @@ bool sample(bilinear_sampler, SrcView const& src, point<F> const& p, DstP& resul
     point_t p0(ifloor(p.x), ifloor(p.y)); // the closest integer coordinate top left from p
     point<F> frac(p.x-p0.x, p.y-p0.y);
 
-    if (p0.x < -1 || p0.y < -1 || p0.x>=src.width() || p0.y>=src.height())
+    if (p0.x < -1 || p0.y < -1 || p0.x>=src.width() || p0.y>=src.height() || src.width()<=0 || src.height()<=0)
     {
         return false;
     }
